@@ -148,6 +148,7 @@ def fmt_families(fmt, ops, attr_vals=None, star=False, abstract=True, extra=None
 
 
 FAMILIES.update(fmt_families('json', LOGIC_BIN, ATTR_VALS_JSON))
+
 FAMILIES.update(fmt_families('glencoe', LOGIC_BIN, None, abstract=False))
 FAMILIES.update(fmt_families('fide', ALL_OPS_NOT_XOR, None))
 ATTR_VALS_AFM = [{'val': 's:3', 'dom': 'R:i:1..i:5|E:', 'nul': 's:0'},
@@ -178,6 +179,10 @@ FAMILIES.update(fmt_families('uvl', ALL_OPS_NOT_XOR, ATTR_VALS_UVL, star=True, e
                                      CtcMinFeatures=3, Fmt='uvl'), invariants=tlc.GEN_INVARIANTS),
     },
 }))
+
+FAMILIES['uvl-Ctc2']['quick']['cap'] = 3000      # UVL parsing is ~20 ms per document
+FAMILIES['json-Ctc2']['quick']['cap'] = 6000
+FAMILIES['glencoe-Ctc2']['quick']['cap'] = 6000
 
 _cache = {}
 
